@@ -416,6 +416,13 @@ def check_index_prune(ctx):
                         test.op, ast.Not) and (
                             txt(test.operand) == alias or
                             'self._index' in txt(test.operand))
+                    if isinstance(test, ast.Compare) and len(
+                            test.ops) == 1 and isinstance(
+                                test.ops[0], (ast.Eq, ast.Lt, ast.LtE)) \
+                            and txt(test.left).startswith('len(') and (
+                                (alias and alias in txt(test.left)) or
+                                'self._index' in txt(test.left)):
+                        empt = True
                     dels = any(isinstance(s, ast.Delete) and 'self._index'
                                in txt(s) for s in node.body)
                     if empt and dels and node.lineno > call.lineno:
